@@ -136,9 +136,9 @@ PROPS = {
     "C01": ledger_prop(),
     "C02": ledger_prop(),
     "C03": ledger_prop(),
-    "C06": ledger_prop(),
+    "C06": dict(ledger_prop(), drivers=LEDGER_DRIVERS + [{"name": "caps", "args": {"quick": [200], "thorough": [4000]}}]),
     "C16": ledger_prop(),
-    "C17": ledger_prop(),
+    "C17": dict(ledger_prop(), drivers=LEDGER_DRIVERS + [{"name": "caps", "args": {"quick": [300], "thorough": [8000]}}]),
     "C15": {
         "models": [
             {"name": "panic", "module": "Panic.tla", "cfg": {"quick": "MC_PanicQuick.cfg", "thorough": "MC_PanicThorough.cfg"},
